@@ -371,13 +371,15 @@ def load (t : Tree) (w : World) : World := applySteps w (loadSteps t w)
 def sweep (live : List Label) (w : World) : World :=
   { w with recs := fun l => if live.contains l then w.recs l else none, temps := 0 }
 
-/-- `dawn gc` = load (from the index when `preferIndex` and it decodes) then `GC` -/
-def gcLive (t : Tree) (preferIndex : Bool) (w : World) : List Label :=
-  match preferIndex, w.index with
-  | true, .good ls => ls
-  | _, _ => t.labels
+/-- the labels that exist for a collection: those of the build files. `dawn gc` loads from `index.json` when it
+decodes (`preferIndex`), but `GC` then reloads from the build files (D19 repair), so the index never decides. -/
+def gcLive (t : Tree) (_preferIndex : Bool) (_w : World) : List Label := t.labels
 
-def gc (t : Tree) (preferIndex : Bool) (w : World) : World :=
+/-- `dawn gc` = load then `GC` -/
+def gc (t : Tree) (preferIndex : Bool) (w : World) : World := sweep (gcLive t preferIndex w) (load t w)
+
+/-- before the D19 repair: a collection after an index-only load kept the labels of the *index* (the last full load) -/
+def gcOld (t : Tree) (preferIndex : Bool) (w : World) : World :=
   match preferIndex, w.index with
   | true, .good ls => sweep ls w
   | _, _ => sweep t.labels (load t w)
